@@ -29,6 +29,11 @@ CHECKS.update({
          "Nodes are groups holding real key material, edges are the real dealer and distributed refresh procedures for EVERY remaining set R (|R|>=t); every path to the depth bound is executed. On every node: key unchanged, every package re-linked (verifying share = G*share = public entry), every t-subset signs (independent verifier), every strict old/new mix and every set with a removed member fails, and the threshold-change / unknown-identifier / non-zero-constant refusals refuse in both procedures.",
          "Refresh polynomials are seeded streams; a full threshold of OLD shares still signs (documented, not asserted to fail).", "DESIGN 4 C10"),
 })
+CHECKS.update({
+ "C12": ("exploration", "exhaustive single-deviation byte-space exploration of every valid encoding (E4) with a re-encode oracle, plus explicit must-reject strings and header enumeration",
+         "For every primitive decoder x 3 decoding paths (own deserialize, serde+postcard, serde+JSON) x several base encodings: every single-byte substitution (hence every bit flip and every tag byte), every length 0..2L; accepted => re-encoding reproduces the input. Explicit negatives (zero, q, q+1, identity spellings, all 8 / 4 torsion points, mixed-order points, x>=p, off-curve x, every SEC1 tag), every version byte, every deviation of the 4-byte ciphersuite id, other suites' ids and encodings, JSON header variants; value round trips of ~40 wire types x shapes x identifier kinds in postcard and JSON incl. the pre-3.0 public key package.",
+         "Byte strings two or more deviations away from a valid encoding are outside the bound (thorough adds all 2-bit flips for <=33-byte primitives); postcard trailing bytes / non-minimal varints and JSON hex case are the serde back ends' framing and are not alarmed.", "DESIGN 4 C12"),
+})
 NOT_APPLICABLE = {}
 
 def main():
